@@ -37,7 +37,13 @@ COPIERS = {'zip', 'len', 'set', 'list', 'tuple', 'dict', 'sorted', 'enumerate', 
            'str', 'iter', 'reversed', 'any', 'all', 'sum', 'map', 'filter', 'repr', 'bool'}
 KEEPERS = {'append', 'add', 'insert', 'appendleft'}            # container.m(obj) keeps obj itself
 MUTATING = {'append', 'insert', 'remove', 'add', 'discard', 'pop', 'clear', 'extend', 'update', 'setdefault',
-            'popitem', 'sort', 'reverse', 'appendleft', 'popleft'}
+            'popitem', 'sort', 'reverse', 'appendleft', 'popleft', '__iadd__', '__imul__', '__setitem__', '__delitem__',
+            '__ior__', '__iand__', '__isub__', '__ixor__'}
+# fields of metamodel-side objects that may hold a list object owned by a loader statement (kept by reference, or
+# possibly so): inside the listed mutators they may be read, iterated, copied and mutated IN PLACE UNDER THEIR OWN NAME
+# (which the write sets record) - binding them to another name, putting them into a tuple / list, or handing them to a
+# function that is not a known reader hides a write from the analysis and raises
+TRACKED_FIELDS = {'source_keys', 'target_keys', 'attributes'}
 RECEIVER_TYPES = {'metaclass': 'MetaClass', 'source_class': 'MetaClass', 'target_class': 'MetaClass',
                   'source_metaclass': 'MetaClass', 'target_metaclass': 'MetaClass', 'inst': 'Class',
                   'instance': 'Class', 'metamodel': 'MetaModel', 'ass': 'Association'}
@@ -260,7 +266,30 @@ def writes_of(src, q):
             return None                               # rebinding a local name
         raise ValueError('%s: unrecognised write target in %s' % (q, what))
 
+    par = _parents(fn)
     for node in ast.walk(fn):
+        if isinstance(node, ast.Attribute) and isinstance(node.ctx, ast.Load) and node.attr in TRACKED_FIELDS:
+            p = par.get(node)
+            where = ast.unparse(p)[:80] if p is not None else ast.unparse(node)
+            if isinstance(p, ast.Attribute) and p.value is node:
+                gp = par.get(p)
+                if p.attr.startswith('__') and p.attr not in MUTATING and isinstance(gp, ast.Call) and gp.func is p:
+                    raise ValueError('%s: `%s` calls a special method of a tracked list' % (q, ast.unparse(gp)[:80]))
+            elif isinstance(p, ast.Assign) and p.value is node:
+                raise ValueError('%s: `%s` binds a tracked list to another name' % (q, where))
+            elif isinstance(p, (ast.Tuple, ast.List, ast.Set, ast.Dict)):
+                raise ValueError('%s: `%s` puts a tracked list into a collection' % (q, where))
+            elif isinstance(p, (ast.BoolOp, ast.NamedExpr, ast.Return, ast.Yield)) or \
+                    (isinstance(p, ast.IfExp) and p.test is not node):
+                raise ValueError('%s: `%s` hands a tracked list on under another name' % (q, where))
+            elif isinstance(p, ast.keyword):
+                raise ValueError('%s: `%s` passes a tracked list as a keyword argument' % (q, where))
+            elif isinstance(p, ast.Call) and node in p.args:
+                f_ = p.func
+                known = (isinstance(f_, ast.Name) and (f_.id in COPIERS or f_.id in ('isinstance', 'type', 'id'))) or \
+                        (isinstance(f_, ast.Attribute) and f_.attr == 'join') or bool(_callee(src, p, cls))
+                if not known:
+                    raise ValueError('%s: `%s` passes a tracked list to a function that is not a known reader' % (q, where))
         if isinstance(node, ast.Assign):
             for tg in node.targets:
                 for el in (tg.elts if isinstance(tg, (ast.Tuple, ast.List)) else [tg]):
